@@ -2027,6 +2027,17 @@ def la_inv(it, A):
     raise Unsupported('np.linalg.inv on index-level arrays')
 
 
+@np_fn('inv', ns='spla')
+def spla_inv(it, a, overwrite_a=False, check_finite=True):
+    """scipy.linalg.inv: the inverse as in np.linalg.inv; with overwrite_a the contents of `a` are DISCARDED (documented: 'may improve performance'):
+    after the call they are arbitrary - LAPACK works in place for Fortran-ordered float/complex input"""
+    B = la_inv(it, a)
+    if conc(overwrite_a) and isinstance(a, CArr):
+        for idx in np.ndindex(*a.shape):
+            a.data[idx] = Cx(it.ctx.fresh('discarded_r', 'real'), it.ctx.fresh('discarded_i', 'real')) if a.kind == 'complex' else it.ctx.fresh('discarded', 'real')
+    return B
+
+
 @np_fn('diag')
 def np_diag(it, a, k=0):
     if _is_mat(a):
